@@ -202,6 +202,16 @@ def check_proofs(prop, cfg):
             problems.append("theorem %s depends on axioms outside the allow-list: %s" % (name, notallowed))
         else:
             discharged += 1
+    # statements are pinned (lib/pins.json, rewritten only by lib/pin.py)
+    try:
+        import pin
+        pins = json.load(open(os.path.join(ROOT, "lib", "pins.json"))).get(prop, None)
+        now = pin.statements(os.path.join(COQ, props_file))
+        if pins is not None and pins != now:
+            changed = sorted(set(pins) ^ set(now)) + sorted(k for k in pins if k in now and pins[k] != now[k])
+            problems.append("theorem statements differ from lib/pins.json: %s" % changed)
+    except FileNotFoundError:
+        pass
     cone = dep_cone(props_file) + [f for f in dep_cone(classify_file)]
     bad = audit_sources(sorted(set(cone)))
     if bad:
